@@ -419,36 +419,40 @@ def _uses():
                 for ch in ast.iter_child_nodes(x):
                     parent[id(ch)] = x
 
-            def write_target(t, how):
+            def write_target(t, how, value=None):
+                val = "" if value is None else " := " + _txt(value)[:70]
+                if isinstance(value, ast.Call) and isinstance(value.func, ast.Name) and value.func.id == "cast" \
+                        and m.imported.get("cast") != ("typing", "cast"):
+                    raise Shape(f"{where}: cast is not typing.cast")
                 if isinstance(t, (ast.Tuple, ast.List)):
                     for e in t.elts:
-                        write_target(e, how)
+                        write_target(e, how, value)
                     return
                 if isinstance(t, ast.Starred):
-                    write_target(t.value, how)
+                    write_target(t.value, how, value)
                     return
                 if isinstance(t, ast.Name):
                     if t.id in declared:
-                        writes.append((where, f"WRITE-{how} {t.id}"))
+                        writes.append((where, f"WRITE-{how} {t.id}{val}"))
                     return
                 root = _root_name(t)
                 if root is None:
                     return
                 if is_global_name(root):
-                    writes.append((where, f"WRITE-{how} {_txt(t)}"))
+                    writes.append((where, f"WRITE-{how} {_txt(t)}{val}"))
                 elif root in params and root not in ("self", "cls"):
-                    writes.append((where, f"PARAM-WRITE-{how} {_txt(t)}"))
+                    writes.append((where, f"PARAM-WRITE-{how} {_txt(t)}{val}"))
                 elif root in tainted:
-                    writes.append((where, f"ALIAS-WRITE-{how} {_txt(t)}"))
+                    writes.append((where, f"ALIAS-WRITE-{how} {_txt(t)}{val}"))
 
             for x in nodes:
                 if isinstance(x, ast.Assign):
                     for t in x.targets:
-                        write_target(t, "assign")
+                        write_target(t, "assign", x.value)
                 elif isinstance(x, ast.AnnAssign) and x.value is not None:
-                    write_target(x.target, "assign")
+                    write_target(x.target, "assign", x.value)
                 elif isinstance(x, ast.AugAssign):
-                    write_target(x.target, "augassign")
+                    write_target(x.target, "augassign", x.value)
                 elif isinstance(x, ast.Delete):
                     for t in x.targets:
                         write_target(t, "del")
